@@ -18,6 +18,7 @@ import (
 	"fmt"
 	"os"
 	"sort"
+	"strconv"
 	"strings"
 	"time"
 
@@ -74,6 +75,7 @@ func main() {
 	c.Set("shapes", len(sp.schema.Shapes))
 	checkClasses(sp.schema.Classes)
 	checkRanges(sp.schema)
+	checkFloats(sp.schema.Floats)
 	fmt.Fprintf(os.Stderr, "c02: TLC %s: %d cases, %d grid cells, %d states (%.1fs)\n", cfg, len(sp.cases), len(sp.grid), sp.res.Distinct, time.Since(t0).Seconds())
 
 	if rp := os.Getenv("VERIF_REPLAY"); rp != "" {
@@ -83,6 +85,8 @@ func main() {
 
 	// the scalar unmarshalers, in process
 	runGrid(c, sp.grid)
+	// the generator's rendering of default values into Go source, in process
+	runDumpGrid(c, sp.schema)
 
 	// the probe: SDL from the shape list
 	installSDL(renderSDL(sp.schema))
@@ -96,6 +100,14 @@ func main() {
 	go func() { buildCombo(c, sp.schema); close(comboDone) }()
 	bins, err := vlib.BuildProbes("args", vs)
 	if err != nil {
+		if c.Violations() > 0 {
+			// what was found in process (e.g. a default rendered into text that is not the number) may be the
+			// very reason the generated server does not compile: the violations stand
+			fmt.Fprintf(os.Stderr, "c02: the probe servers cannot be built (%s); finishing with the violations found so far\n", tail(err.Error(), 600))
+			<-comboDone
+			c.Set("rule", "in-process grids only: the generated probe servers did not build")
+			c.Finish()
+		}
 		vlib.Infra("build probes: %v", err)
 	}
 	for _, v := range vars {
@@ -114,8 +126,53 @@ func main() {
 	})
 	called, rejected := 0, 0
 	perKey := map[string]int{}
+	reported := map[string]bool{}
+	sixAt := map[string]int{} // where the 6-decimals signature was seen
+	where := map[string][]string{} // key -> distinct shape(type)/configurations
+	{
+		cfgs := map[string]map[string]map[string]bool{}
+		for _, r := range results {
+			if r.ver == nil {
+				continue
+			}
+			perKey[r.ver.key]++
+			sh := fmt.Sprintf("%s(x: %s)", r.cs.Shape, r.cs.sh.Type.String())
+			if cfgs[r.ver.key] == nil {
+				cfgs[r.ver.key] = map[string]map[string]bool{}
+			}
+			if cfgs[r.ver.key][sh] == nil {
+				cfgs[r.ver.key][sh] = map[string]bool{}
+			}
+			cfgs[r.ver.key][sh][r.vr.v.Name] = true
+			if r.ver.at != "" {
+				sixAt[r.ver.at]++
+			}
+		}
+		for k, m := range cfgs {
+			for sh, cs := range m {
+				names := make([]string, 0, len(cs))
+				for n := range cs {
+					names = append(names, n)
+				}
+				sort.Strings(names)
+				where[k] = append(where[k], sh+"/"+strings.Join(names, "+"))
+			}
+			sort.Strings(where[k])
+			if len(where[k]) > 24 {
+				where[k] = append(where[k][:24], "...")
+			}
+		}
+	}
+	dims := map[string]int64{}
+	siteSeen := map[string]int{}
 	for _, r := range results {
 		c.AddEvals(1)
+		for _, d := range dimensions(&r) {
+			dims[d]++
+		}
+		for _, d := range r.obs.Dirs {
+			siteSeen[d.Tag+"/"+r.vr.v.Name]++
+		}
 		outcome := "value"
 		if r.obs.Called == 0 {
 			outcome = "rejected"
@@ -130,12 +187,29 @@ func main() {
 			exp = "lenient"
 		}
 		c.Class(fmt.Sprintf("%s/%s/%s/%s/%s/%s", r.cs.sh.Type.String(), defKind(r.cs.sh), r.cs.Src.String(), r.cs.Origin, r.cs.Val.kindOf(), exp+">"+outcome))
-		if r.ver != nil {
-			perKey[r.ver.key]++
-			if perKey[r.ver.key] == 1 {
-				c.Violate(r.ver.key, r.ver.detail, scenarioOf(&r))
+		if r.ver != nil && !reported[r.ver.key] {
+			reported[r.ver.key] = true
+			c.Violate(treatFixed(r.ver.key), fmt.Sprintf("%s\n[%d observations with this key, at: %s]", r.ver.detail, perKey[r.ver.key], strings.Join(where[r.ver.key], " ")), scenarioOf(&r))
+		}
+	}
+	c.Set("six_decimals_signature_seen_at", sixAt)
+	// the dimensions the enumeration is meant to reach
+	for _, d := range dimensionNames {
+		c.Set("dim_"+d, dims[d])
+		if dims[d] == 0 && c.Violations() == 0 {
+			vlib.Infra("vacuous: no execution in the dimension %q", d)
+		}
+	}
+	for _, st := range sp.schema.Sites {
+		n := 0
+		for _, v := range vars {
+			n += siteSeen[st.Tag()+"/"+v.v.Name]
+			if siteSeen[st.Tag()+"/"+v.v.Name] == 0 && c.Violations() == 0 {
+				vlib.Infra("vacuous: the directive @dflt at %s was never invoked in configuration %s", st.Tag(), v.v.Name)
 			}
 		}
+		c.Class("dirsite/" + st.Tag() + "/" + st.App.kindOf())
+		c.Set("dirsite_"+st.Tag()+"_invocations", n)
 	}
 	for i := 0; i < len(results) && i < 4*len(vars); i += len(vars) + 1 {
 		r := results[i*37%len(results)]
@@ -160,11 +234,11 @@ func main() {
 	c.Set("configurations", len(vars))
 	c.Set("exhaustive", true)
 	c.Set("rule", "TLC enumerates every (argument shape, source, abstract value) of the bounded universe in spec/Coerce.tla "+
-		"(34 shapes; sources literal / variable (json.Number, float64) / variable with default / nullable variable at a non-null position; "+
+		"("+strconv.Itoa(len(sp.schema.Shapes))+" shapes; sources literal / variable (json.Number, float64) / variable with default / nullable variable at a non-null position; "+
 		"values: integer boundary classes, floats, strings, enum literals, lists <= 2, single-for-list, objects deviating from a base object in <= "+
-		map[bool]string{false: "2 fields", true: "3 fields"}[thorough]+" incl. unknown / missing / variable-carried fields) with the outcome the GraphQL specification prescribes; "+
+		map[bool]string{false: "2 fields", true: "3 fields"}[thorough]+" incl. unknown / missing / variable-carried fields; Float defaults - fine fractions, tiny, denormal, huge, integral - of input fields (also inside list and object defaults), of arguments, of variables and of the arguments of a directive applied in the schema) with the outcome the GraphQL specification prescribes; "+
 		"every case is executed on every generated configuration; a class is distinct by (type, default, source, origin of the value, value kind, expected>observed outcome); "+
-		"the scalar unmarshalers are driven over target x carrier x class")
+		"the scalar unmarshalers are driven over target x carrier x class; templates.Dump over the named floats and seed-derived float64 values")
 	c.Assume("ur.Canon renders the Go values the resolver received faithfully (nil pointer = null, Omittable unset / set, map keys)")
 	c.Assume("the view of absent / null under a Go binding (struct: both nil; Omittable: unset vs set(nil); map: no key vs nil) is as printed by the specification's ViewTable")
 	c.Assume("Int bound to Go int (64 bit): values outside 32 bit may be rejected or delivered unchanged; float64 rounding of integers beyond 2^53 into Float is not judged")
@@ -180,13 +254,16 @@ func defKind(sh *Shape) string {
 	if sh.Dir {
 		s += "+dir"
 	}
+	if sh.FDir != nil && sh.FDir.T != "nodef" {
+		s += "+dflt"
+	}
 	return s
 }
 
 func scenarioOf(r *result) map[string]any {
 	return map[string]any{"kind": "case", "config": r.vr.v.Name, "options": r.vr.v.Opts, "seed": vlib.Seed(), "tier": vlib.Tier(),
 		"query": r.cmd.Query, "variables": r.cmd.Vars, "carrier": r.cmd.Carrier, "shape": r.cs.Shape, "source": r.cs.Src.String(), "value": r.cs.Val.String(),
-		"specification": map[string]any{"ok": r.cs.Out.OK, "v": r.cs.Out.V.String(), "faults": r.cs.Out.Faults, "soft": r.cs.Out.Soft},
+		"specification": map[string]any{"ok": r.cs.Out.OK, "v": r.cs.Out.V.String(), "faults": r.cs.Out.Faults, "soft": r.cs.Out.Soft, "field_defaults_at": r.cs.Out.Dfl},
 		"observed":      r.obs}
 }
 
@@ -258,7 +335,7 @@ func replayOne(c *vlib.Check, path string, sp *specOut, thorough bool) {
 			c.Sample(scenarioOf(&r))
 			fmt.Printf("replay: %s  variables %s -> called=%d args=%s gate=%v errs=%v\n", r.cmd.Query, r.cmd.Vars, r.obs.Called, r.obs.Args, r.obs.Gate, r.obs.Errs)
 			if r.ver != nil {
-				c.Violate(r.ver.key, r.ver.detail, scenarioOf(&r))
+				c.Violate(treatFixed(r.ver.key), r.ver.detail, scenarioOf(&r))
 			}
 		}
 	default:
